@@ -406,6 +406,8 @@ def index_schedules(draw, max_n=4):
             "flush_each": draw(st.booleans()), "compressed": draw(st.sampled_from([True, True, False])),
             # what earlier runs (or the user) left next to the reference
             "initial": draw(st.sampled_from(["none", "none", "fai_only", "both", "stale_both"])),
+            # runs in containers (each in its own PID namespace, the reference on a shared volume) all have the same pid
+            "same_pid": draw(st.sampled_from([False, False, True])),
             "n_contigs": draw(st.integers(1, 3)), "content": draw(st.integers(0, 5))}
 
 
@@ -485,8 +487,8 @@ def eval_index_schedule(case, ctx):
                 sched.finish(i)
 
         os.replace = replace_hook
-        os.getpid = lambda: 100000 + tid_of.get(threading.get_ident(), 0) if threading.get_ident() in tid_of \
-            else real_getpid()
+        os.getpid = lambda: (1 if case.get("same_pid") else 100000 + tid_of.get(threading.get_ident(), 0)) \
+            if threading.get_ident() in tid_of else real_getpid()
         old_open = getattr(pyfaidx, "open", None)
         pyfaidx.open = proxy_open
         try:
